@@ -76,6 +76,14 @@ def main():
     cases.append(("free Resume.froml[1] +1 (file read back differs)", "free", rnd.choice(idx(fr, lambda i, x: x["e"] == "Resume")), bump("froml", 1, lambda y: 1)))
     cases.append(("free Resume.afterl[0] +1 (set_up changed a positive voxel)", "free", rnd.choice(idx(fr, lambda i, x: x["e"] == "Resume" and x["variant"] == 1)), bump("afterl", 1)))
     cases.append(("free Final.bh[0] +1 (image in memory differs from the last file)", "free", rnd.choice(idx(fr, lambda i, x: x["e"] == "Final")), bump("bh", 1)))
+    cases.append(("free Cont.bl[0] +1 (variant 4: fresh objects vs re-used objects)", "free", rnd.choice(idx(fr, lambda i, x: x["e"] == "Cont" and x["variant"] == 4)), bump("bl", 1)))
+    usable = lambda recs: (lambda i, x: x["e"] == "Instance" and x["iuf"] == 0 and x["iif"] == 0 and recs[i + 1].get("ok"))
+    cases.append(("exact Instance.zero flipped (zero_seg0_end_planes)", "exact", rnd.choice(idx(ex, lambda i, x: usable(ex)(i, x) and (x["zero"] or x["maxSeg"] != 0))),
+                  lambda x: x.__setitem__("zero", not x["zero"])))
+    cases.append(("exact re-used Instance.maxSeg -1 <-> 0", "exact", rnd.choice(idx(ex, lambda i, x: usable(ex)(i, x) and x["reuse"] and not x["zero"])),
+                  lambda x: x.__setitem__("maxSeg", 0 if x["maxSeg"] != 0 else -1)))
+    cases.append(("exact re-used Instance.ef (old normalisation)", "exact", rnd.choice(idx(ex, lambda i, x: usable(ex)(i, x) and x["reuse"] and x["change"] == "normalisation")),
+                  lambda x: x.__setitem__("ef", [0 if e else -1 for e in x["ef"]])))
     cases.append(("free Step dropped", "free", rnd.choice(idx(fr, lambda i, x: x["e"] == "Step" and x["k"] == 2)), None))
     bad = 0
     for n, (name, mode, i, f) in enumerate(cases):
